@@ -3,6 +3,7 @@ import sympy as sp
 
 from .. import effects as EF
 from .. import norm
+from ..astq import sc
 from ..tu import AnalysisBroken
 
 
@@ -440,6 +441,22 @@ def check_pool(P, rep, PF, rule="PAR.pool"):
                     rep.violation(rule, "the join loop does not post-dominate a launch", PF.nloc(ln), PF.qn, R(ln),
                                   "a path leaves parallel_for with a running thread", key=rule + "|join-postdom")
                     good = False
+            # a pool entry whose launch is conditional stays a default-constructed std::thread: join() on it throws, so the join has
+            # to be under joinable() unless every entry is launched unconditionally
+            guarded = any(a.get("k") == "IfStmt" and norm.strip_casts(a["c"][0]).get("k") == "CXXMemberCallExpr"
+                          and P.d(norm.strip_casts(a["c"][0]).get("callee")).get("qn") == "std::thread::joinable" for a in PF.ancestors(J))
+            cond_launch = []
+            for ln in (L, T):
+                for a in PF.ancestors(ln):
+                    if a.get("k") == "IfStmt":
+                        cond_launch.append(R(a["c"][0]))
+                    if a.get("k") == "ForStmt" and a["c"][1] is not None and sc(a["c"][1]).get("k") == "BinaryOperator" and sc(a["c"][1]).get("op") == "&&":
+                        cond_launch.append(R(a["c"][1]))
+            if not guarded and cond_launch:
+                rep.violation(rule, "join() is not guarded by joinable() although launches are conditional (%s)" % "; ".join(sorted(set(cond_launch)))[:120],
+                              PF.nloc(J), PF.qn, R(J), "a pool entry that was never launched is joined: std::system_error instead of the output file",
+                              key=rule + "|join-unlaunched", witness="more threads than grid nodes (-j larger than the node count)")
+                good = False
             # conditions the join is control dependent on inside the loop: only t.joinable()
             for a in PF.ancestors(J):
                 if a is loop:
